@@ -470,7 +470,14 @@ def MisloadedPub(inp, tab, ev):
     xpub = W.ser(tab, rn, W.VERSIONS[("pub", rn.net, "bip44")], False)
     i = int.from_bytes(bytes(inp["i"]), "big")
     probes = []
-    ok0, n = call(PrvKeyNode.parse, xpub, rn.net == "test")
+    if inp.get("via") == "subclass":
+        from btc_hd_wallet.bip32 import PubKeyNode
+
+        class AppNode(PubKeyNode):           # an application's own node class
+            pass
+        ok0, n = call(AppNode.parse, xpub, rn.net == "test")
+    else:
+        ok0, n = call(PrvKeyNode.parse, xpub, rn.net == "test")
     if ok0:
         for what, f in (("ckd", lambda: n.ckd(i)), ("derive_path", lambda: n.derive_path([i])),
                         ("generate_children", lambda: list(n.generate_children((i, i + 1))))):
@@ -746,6 +753,28 @@ def SecParse(inp, tab, ev):
 
 
 @act
+def FromPoint(inp, tab, ev):
+    """PublicKey.from_point given point OBJECTS that are not points of secp256k1 (generators and multiples of other
+    curves of the same size): every one refused"""
+    from btc_hd_wallet.keys import PublicKey
+    probes = []
+    try:
+        import ecdsa
+        pts = [("NIST256p.G", ecdsa.NIST256p.generator), ("NIST256p.5G", ecdsa.NIST256p.generator * 5),
+               ("BRAINPOOLP256r1.G", ecdsa.BRAINPOOLP256r1.generator)]
+    except Exception:
+        pts = []
+    for what, pt in pts:
+        try:
+            pk = PublicKey.from_point(pt)
+            pk.sec()
+            probes.append({"what": what, "ok": True})
+        except Exception:
+            probes.append({"what": what, "ok": False})
+    ev["res"] = {"ok": True, "v": {"probes": probes}}
+
+
+@act
 def BadPointNode(inp, tab, ev):
     """a PUBLIC node whose 33-byte key is not a curve point, obtained by each route; nothing may be emitted for it"""
     from btc_hd_wallet import BaseWallet
@@ -859,7 +888,15 @@ def AddrSeq(inp, tab, ev):
 def ScriptTpl(inp, tab, ev):
     from btc_hd_wallet import script
     fn = getattr(script, inp["tpl"] + "_script")
-    ok, v = call(lambda: fn(bytes(inp["h"])).raw_serialize())
+    if inp.get("then") is not None:
+        # the script is built, then ANOTHER script of the same kind is built for another hash, then the first is serialised
+        def both():
+            first = fn(bytes(inp["h"]))
+            fn(bytes(inp["then"])).raw_serialize()
+            return first.raw_serialize()
+        ok, v = call(both)
+    else:
+        ok, v = call(lambda: fn(bytes(inp["h"])).raw_serialize())
     ev["res"] = res_of(ok, v, B)
 
 
@@ -1048,7 +1085,12 @@ def Bip85(inp, tab, ev):
     # other wallets of the same process asked the same question first (their answers are not judged here)
     for other in inp.get("warm", []):
         call(request(BIP85DeterministicEntropy(master_node=py_node(other))))
-    be = BIP85DeterministicEntropy(master_node=py_node(inp["master"]))
+    if inp.get("derived_from") is not None:
+        # the BIP85 master is a node DERIVED in this process (it has a parent object): BIP85 starts at the node it is given
+        root_ = py_node(inp["derived_from"]["root"])
+        be = BIP85DeterministicEntropy(master_node=root_.ckd(int.from_bytes(bytes(inp["derived_from"]["i"]), "big")))
+    else:
+        be = BIP85DeterministicEntropy(master_node=py_node(inp["master"]))
     # earlier requests on the SAME object, in various spellings (their answers are not judged here either)
     for h in inp.get("history", []):
         hi = int.from_bytes(bytes(h["ix"]["mag"]), "big")
